@@ -123,6 +123,7 @@ type hOp struct {
 	NSrc int    `json:"nsrc,omitempty"` // name: 0 dhcp4 1 mdns 2 ssdp 3 llmnr 4 nbns
 	V6   bool   `json:"v6,omitempty"`   // name: the carrying frame is IPv6
 	D    int    `json:"d,omitempty"`    // adv: index into advance table
+	Exp  int    `json:"exp,omitempty"`  // name: expiry announced with the name (0 none, k: k hours from a fixed instant)
 }
 
 func (o hOp) String() string {
@@ -499,6 +500,9 @@ func runHistory(tb drv.TB, rec *drv.Rec, sub string, h history, or histOracles) 
 			case "name":
 				if frame.Host != nil && mh != nil {
 					ne := packet.NameEntry{Type: nameSrcType[op.NSrc%5], Name: op.Name}
+					if op.Exp > 0 { // a refreshed announcement: same name, later expiry; the expiry is not an attribute
+						ne.Expire = time.Date(2030, 1, 1, op.Exp, 0, 0, 0, time.UTC)
+					}
 					panicked, psig, pst = drv.Catch(func() { applyName(frame.Host, op.NSrc%5, ne) })
 					if m.learnName(mh, op.NSrc%5, ne) {
 						res.NameChange = true
